@@ -210,6 +210,7 @@ def r06_2_4(ctx, m, info):
     inner = info["inner"]
     paths = enum_paths(loop.body, expand_loop=lambda n: n is inner, rule="R06.2", where=dec.where(loop))
     bad = None
+    modes = set()
     for p in paths:
         if p.term not in ("fall", "continue"):
             continue
@@ -224,13 +225,21 @@ def r06_2_4(ctx, m, info):
             e = p.events[incs[0]].node
             if not (isinstance(e.op, ast.Add) and isinstance(const_value(e.value), int) and const_value(e.value) >= 1):
                 bad = (p, f"BO step is `{norm(e)}`, not a positive constant")
+            elif uses and incs[0] < min(uses):
+                modes.add("pre")  # `bo += 1` first, then the element is numbered: the counter means "last index used"
             elif uses and incs[0] < max(uses):
-                bad = (p, "BO counter advanced before the last node of the element was numbered")
+                bad = (p, "BO counter advanced between the nodes of one element (they get different BO)")
+            elif uses:
+                modes.add("post")
             elif any(x is e for x in ast.walk(inner)):
                 bad = (p, "BO counter advanced inside the per-bubble loop (nodes of one bubble get different BO)")
         if bad:
             break
-    ctx.check(bad is None, "R06.2", dec.where(loop), "on every path through one chain element the BO counter advances by a positive constant exactly once, after its uses and outside the per-bubble loop", key_of(dec, f"bo-step:{bad[1] if bad else ''}"), paths=len(paths), **({"path": bad[0].show(), "why": bad[1]} if bad else {}))
+    if bad is None and modes == {"pre", "post"}:
+        bad = (paths[0], "the BO counter is advanced before the element is numbered on some paths and after it on others")
+    pre = modes == {"pre"}  # convention "last used": numbering starts at incoming + 1 and the counter handed on is the last index used
+    info["bo_convention"] = "last-used" if pre else "next-free"
+    ctx.check(bad is None, "R06.2", dec.where(loop), "on every path through one chain element the BO counter advances by a positive constant exactly once, " + ("before" if pre else "after") + " its uses and outside the per-bubble loop", key_of(dec, f"bo-step:{bad[1] if bad else ''}"), paths=len(paths), **({"path": bad[0].show(), "why": bad[1]} if bad else {}))
     inc_in_inner = [st for st in walk_stmts(inner.body) if isinstance(st, ast.AugAssign) and norm(st.target) == bo]
     ctx.check(not inc_in_inner, "R06.2", dec.where(inner), "no BO increment inside the per-bubble loop", key_of(dec, "bo-inc-in-bubble-loop"))
     # the loop iterates the whole traversal, unfiltered
@@ -275,7 +284,8 @@ def r06_2_4(ctx, m, info):
         d = r.value.elts[2] if len(r.value.elts) > 2 else None
         if isinstance(d, ast.Dict) and d.values and isinstance(d.values[0], ast.Tuple):
             v = d.values[0]
-            ctx.check(norm(v.elts[0]) == param and const_value(v.elts[1], "?") == 0, "R06.4", dec.where(r), "the single node is tagged (incoming BO, NO 0)", key_of(dec, f"single-node-tags:{norm(v)}"), tags=norm(v))
+            want_bo = (f"{param} + 1", f"1 + {param}") if pre and kind == "assign" else (param,)
+            ctx.check(norm(v.elts[0]) in want_bo and const_value(v.elts[1], "?") == 0, "R06.4", dec.where(r), "the single node is tagged (incoming BO, NO 0)" if not pre else "the single node is tagged (last used BO + 1, NO 0)", key_of(dec, f"single-node-tags:{norm(v)}"), tags=norm(v))
 
 
 def r06_3(ctx, m, info):
@@ -468,6 +478,10 @@ def r06_6(ctx):
     repo = ctx.repo
     rg = repo.func("gaftools.gfa", "GFA.read_graph", "R06.6")
     ctx.analysed_func(rg)
+    if not any(isinstance(c, ast.Call) and isinstance(c.func, ast.Attribute) and c.func.attr == "add_edge" for c in walk_own(rg.node)):
+        from ..core import tail_inlined
+
+        rg = tail_inlined(repo, rg, keep=lambda callee: callee.name in ("add_edge", "add_node"))  # the link is added by a helper of the reader
     file_loops = []
     for n in walk_stmts(rg.node.body):  # also inside `with handle:` / try
         if isinstance(n, ast.For) and any(isinstance(c, ast.Call) and isinstance(c.func, ast.Attribute) and c.func.attr == "startswith" for c in ast.walk(n)):
@@ -819,5 +833,9 @@ def r06_11(ctx, m):
             if dicts:
                 v = dicts[0].values[0]
                 bo_p = dec.params[3] if len(dec.params) > 3 else None
-                ok = isinstance(v, ast.Tuple) and len(v.elts) == 2 and norm(v.elts[0]) == bo_p and const_value(v.elts[1], None) == 0
+                # (under the "last used" convention — the numbering loop advances the counter before it numbers — the
+                # segment gets incoming + 1; R06.2 / R06.4 decide the convention and its consistency)
+                pre_ = any(isinstance(l_, ast.For) and l_.body and isinstance(l_.body[0], ast.AugAssign) and isinstance(l_.body[0].op, ast.Add) and const_value(l_.body[0].value, None) == 1 and any(isinstance(d_, ast.Assign) and norm(d_.targets[0]) == norm(l_.body[0].target) and norm(d_.value) == bo_p for d_ in dec.node.body) for l_ in dec.node.body)
+                want_ = (f"{bo_p} + 1", f"1 + {bo_p}") if pre_ else (bo_p,)
+                ok = isinstance(v, ast.Tuple) and len(v.elts) == 2 and norm(v.elts[0]) in want_ and const_value(v.elts[1], None) == 0
                 ctx.check(ok, "R06.11", dec.where(r), "a chromosome that is a single segment gets BO = the running counter and NO = 0 (it is a scaffold node)", key_of(dec, f"single-node-order:{norm(v)}"))
